@@ -709,6 +709,10 @@ class Prettier:
 			フォーマット文字列
 		"""
 		pretty_patterns = ' '.join([cls._pretty_pattern_entry(pattern) for pattern in patterns.entries])
+		# XXX リピートなしの括弧グループ`(expr)`は括弧を維持しないと、再パース時に別の構造になる
+		if patterns.rep == Repeators.NoRepeat and len(patterns.entries) == 1:
+			return f'({pretty_patterns})'
+
 		return cls._deco_repeat(pretty_patterns, patterns.rep)
 
 	@classmethod
